@@ -262,6 +262,36 @@ def run(chk, binary):
                                "rc": [rs[0][0], r[0]], "stdout_short": rs[0][1].decode(errors="replace"),
                                "stdout_form": r[1].decode(errors="replace"), "stderr_form": r[2].decode(errors="replace")[-300:]})
                 break
+    # ---- file arguments: as arguments of the flags, as arguments behind a script, and named in the script's opts block ----
+    from .. import drivers as D
+    fjobs, fmeta = [], []
+    for _ in range(60 if thorough else 14):
+        nf = rng.choice([1, 2])
+        files = [(nm, rng.choice([t for t in L.TEXTS if t.strip() and "\\" not in t]).encode()) for nm in rng.sample(["in1.txt", "in2.txt", "data.csv"], nf)]
+        fl = rng.sample(["--linewise", "--serial", "--json"], rng.choice([0, 1, 2]))
+        body_items = [rng.choice([("cut", "e"), ("cut", "$"), ("move", "w"), ("cut", "iw"), ("move", "x")]) for _ in range(rng.randint(1, 3))]
+        if not any(k == "cut" for k, _ in body_items):
+            body_items.append(("cut", "e"))
+        flags = fl + [x for k, a in body_items for x in (("-c" if k == "cut" else "-m"), a)]
+        body = "".join('%s "%s"\n' % (k, a) for k, a in body_items)
+        on = [{"--linewise": "linewise", "--serial": "serial", "--json": "json"}[x] for x in fl]
+        names = [nm for nm, _ in files]
+        fopt = ('file = "%s"' % names[0]) if nf == 1 and rng.random() < 0.5 else ("files = [" + ", ".join('"%s"' % n for n in names) + "]")
+        forms = [("flags", flags, True), ("script + file arguments", [("opts { " + ", ".join(on) + " }\n" if on else "") + body], True),
+                 ("files named in the opts block", ["opts { " + ", ".join(on + [fopt]) + " }\n" + body], False)]
+        for name, cmds, named in forms:
+            fjobs.append({"files": files, "opts": [], "cmds": cmds, "stdin": None, "unnamed": [] if named else names})
+        fmeta.append((forms, files))
+    fobs = D.scenarios_map(binary, fjobs)
+    for k, (forms, files) in enumerate(fmeta):
+        obs3 = fobs[3 * k: 3 * k + 3]
+        chk.count(("files", tuple(forms[0][1]), tuple(n for n, _ in files)))
+        for (name, cmds, _), ob in zip(forms[1:], obs3[1:]):
+            if (ob["rc"], ob["out"]) != (obs3[0]["rc"], obs3[0]["out"]):
+                chk.violation("spec:forms differ in output", {"argv_short": obs3[0]["argv"], "form": name, "argv_form": ob["argv"], "files": [(a, b.decode(errors="replace")) for a, b in files],
+                              "rc": [obs3[0]["rc"], ob["rc"]], "stdout_short": obs3[0]["out"].decode(errors="replace")[:400], "stdout_form": ob["out"].decode(errors="replace")[:400],
+                              "stderr_form": ob["err"].decode(errors="replace")[-300:]})
+                break
     if scripts:
         chk.sample({"vic": scripts[0]})
     # ---- known finding: option flag inside a -g scope ----
